@@ -13,12 +13,14 @@ def run(ctx):
                 "inside MITM) x position x direct/upstream; the instance tag is learnt from a priming request; refused "
                 "chains must give 400 and contact nobody, others must arrive with the client's elements followed by exactly "
                 "one new element of the client's protocol version. Real loops of one and two instances are driven too, and 16 "
-                "concurrent clients with chains of all classes (unique, of different lengths) share one instance. "
+                "concurrent clients with chains of all classes (unique, of different lengths) share one instance; the real binary is "
+                "looped onto itself and in a pair, with and without --connect-header, for plain requests and CONNECT. "
                 "Non-trivial = chain carrying any Via element.")
     ctx.mc("Pipeline.tla", "MC_Pipeline.cfg")
     binp = ctx.build()
     pipecommon.run_gen(ctx, binp, "Via", "Q" if q else "T", key, "via_case")
     loops(ctx, binp)
+    binary_loops(ctx)
     ctx.exhaustive = True
 
 
@@ -37,6 +39,71 @@ def loops(ctx, binp):
             ctx.traces_ok += 1
     if out:
         ctx.sample({"loop": out[0]})
+
+
+def binary_loops(ctx):
+    """real loops through the real binary (command/run wiring): one instance whose upstream is itself, two instances pointing
+    at each other; with and without --connect-header (which feeds the CONNECT sent to the upstream proxy); plain and CONNECT."""
+    import socket, subprocess, time
+    import c19
+    fwd = ctx.build_cmd_forwarder()
+
+    def start(addr, upstream, connect_header):
+        args = [fwd, "run", "--address", "127.0.0.1:%d" % addr, "--api-address", "127.0.0.1:%d" % c19.free_port(),
+                "--proxy-localhost", "allow", "--proxy", "http://127.0.0.1:%d" % upstream, "--log-level", "error"]
+        if connect_header:
+            args += ["--connect-header", "X-Loop-Probe: 1"]
+        return subprocess.Popen(args, stdout=subprocess.DEVNULL, stderr=subprocess.DEVNULL)
+
+    def wait_up(port):
+        for _ in range(100):
+            try:
+                socket.create_connection(("127.0.0.1", port), timeout=0.2).close()
+                return True
+            except OSError:
+                time.sleep(0.05)
+        return False
+
+    for topo in ("self", "pair"):
+        for ch in (False, True):
+            origin = c19.Peer()
+            origin.start()
+            a, b = c19.free_port(), c19.free_port()
+            procs = [start(a, a if topo == "self" else b, ch)]
+            if topo == "pair":
+                procs.append(start(b, a, ch))
+            try:
+                if not wait_up(a) or (topo == "pair" and not wait_up(b)):
+                    raise vlib.Infra("forwarder binary did not come up for the loop scenario")
+                tgt = "127.0.0.1:%d" % origin.port
+                probes = {"GET": "GET http://%s/loop HTTP/1.1\r\nHost: %s\r\nConnection: close\r\n\r\n" % (tgt, tgt),
+                          "CONNECT": "CONNECT %s HTTP/1.1\r\nHost: %s\r\n\r\n" % (tgt, tgt)}
+                for kind, req in probes.items():
+                    name = "binary-%s-%s-%s" % (topo, "connect-header" if ch else "plain", kind)
+                    t0 = time.time()
+                    out = c19.http_exchange(("127.0.0.1", a), req.encode(), timeout=6)
+                    took = time.time() - t0
+                    status = out.split(" ")[1] if out.startswith("HTTP/") and len(out.split(" ")) > 1 else "none"
+                    ctx.evaluations += 1
+                    ctx.nontrivial.add("loop:" + name)
+                    r = {"name": name, "status": status, "took_s": round(took, 2), "origin_saw": origin.seen[:2]}
+                    if status != "400":
+                        r["why"] = "looping %s answered %s after %.1f s, expected 400 at the first repetition" % (kind, status, took)
+                        ctx.violation("C18:loop:" + name, r)
+                    elif origin.seen:
+                        r["why"] = "a looping request reached the origin"
+                        ctx.violation("C18:loop:" + name, r)
+                    else:
+                        ctx.traces_ok += 1
+            finally:
+                for p in procs:
+                    p.kill()
+                for p in procs:
+                    try:
+                        p.wait(timeout=5)
+                    except Exception:
+                        pass
+                origin.close()
 
 
 def replay(ctx, path):
